@@ -477,6 +477,9 @@ fn lowering_diagnostic_message(d: &LoweringDiagnostic, interner: &Interner) -> S
         LoweringDiagnosticKind::NonGlobalExternFunc => {
             "non-global functions cannot be extern".to_string()
         }
+        LoweringDiagnosticKind::GlobalWithoutValue => {
+            "globals must be given a value (or be marked `extern`)".to_string()
+        }
         LoweringDiagnosticKind::InvalidEscape => "invalid escape".to_string(),
         LoweringDiagnosticKind::DirectiveMismatchedArgCount { found_count } => {
             if *found_count == 0 {
